@@ -1,7 +1,7 @@
 """C11 - unit floats: next_f32/f64 in [1,2) on an exact grid, Float01 strictly in (0,1)."""
 from . import common as C, gen_int as G, oracles as O
 
-LEAN_MODULE = ["Urandom.Props.C11", "Urandom.Props.C11T"]
+LEAN_MODULE = ["Urandom.Props.C11", "Urandom.Props.C11T", "Urandom.Props.C13R", "Urandom.Props.C01R"]
 RULE = ("requests: Float01 (f32, f64, Random::float01) for all 65 leading-zero classes of the first word x mantissa words {0, !0, random}; "
         "next_f32/next_f64 of every generator through the word/std streams; "
         "extra (implementation only, exact counting by interval search with real calls): the number of first words Float01 maps into each binade [2^-(k+1), 2^-k) must be exactly 2^(63-k) "
